@@ -25,6 +25,7 @@ import (
 	cryptotypes "github.com/cosmos/cosmos-sdk/crypto/types"
 	sdk "github.com/cosmos/cosmos-sdk/types"
 	authtypes "github.com/cosmos/cosmos-sdk/x/auth/types"
+	vestingtypes "github.com/cosmos/cosmos-sdk/x/auth/vesting/types"
 	banktypes "github.com/cosmos/cosmos-sdk/x/bank/types"
 	govv1 "github.com/cosmos/cosmos-sdk/x/gov/types/v1"
 
@@ -54,7 +55,7 @@ func init() {
 	gen := "seeded generation of histories (one run = one PRNG seed = one world configuration + one sequence of steps); "
 	levels["C14"] = levelInfo{"exploration", gen + "distinct = hash of the (step shape, per-tx success) sequence; non-trivial = at least one MsgMigrateAccount was accepted or had to be refused for a reason named by the property"}
 	levels["C15"] = levelInfo{"exploration", gen + "distinct = shape hash; non-trivial = at least one proposal ended (refund/burn judged) or entered its voting period (threshold judged)"}
-	levels["C16"] = levelInfo{"fault_enumeration", "exhaustive over the grid {sdk.Msg types registered on the app's interface registry whose cosmos.msg.v1.signer is `authority` (enumerated at run time by protoreflect; crosschain types x every chain name)} x {authority classes: user key, other module account, validator-prefixed, upper-case, hex, empty} x {entry paths: signed tx, authz MsgExec (with and without grant), governance proposal, direct msg-router call}; every run covers a contiguous window of the grid (offset drawn from the seed) injected at random points of a seeded governance history, so a batch covers every cell many times; probes `msg:<type url>` list the enumerated types, `cell:<class>/<path>` the grid; non-trivial = at least one injection was judged; plus compare-and-set scenarios for MsgUpdateStore (fresh / stale / partially stale / two competing passed proposals in both orders) and positive controls (same payload, governance authority, passed proposal)"}
+	levels["C16"] = levelInfo{"fault_enumeration", "exhaustive over the grid {sdk.Msg types registered on the app's interface registry whose cosmos.msg.v1.signer is `authority` (enumerated at run time by protoreflect; crosschain types x every chain name)} x {payload shapes per type: hand-written valid, zero value with only the authority set, and degenerate-but-valid forms aimed at existing objects (delete-existing / delete-missing custom params, no-op / delete-form / repeated-key store updates, existing alias, empty lists)} x {authority classes: user key, other module account, validator-prefixed, upper-case, hex, empty} x {entry paths: signed tx, authz MsgExec (with and without grant), governance proposal, direct msg-router call}; every run covers a contiguous window of the grid (offset drawn from the seed) injected at random points of a seeded governance history, so a batch covers every cell many times; probes `msg:<type url>` list the enumerated types, `cell:<class>/<path>` the grid; non-trivial = at least one injection was judged; plus compare-and-set scenarios for MsgUpdateStore (fresh / stale / partially stale / the same key twice inside one message, stale and correctly chained / two competing passed proposals in both orders) and positive controls (same payload, governance authority, passed proposal)"}
 }
 
 // ---------------------------------------------------------------------------------------
@@ -98,7 +99,17 @@ func (GovEngine) GenConfig(rng *rand.Rand, prop string, tier string) RunConfig {
 		k["grid_offset"] = fmt.Sprint(rng.IntN(1 << 20))
 	case "C14":
 		cfg.NoInflation = rng.IntN(5) == 0
-		k["legacy"] = fmt.Sprint(3 + rng.IntN(4))
+		nLeg := 3 + rng.IntN(4)
+		k["legacy"] = fmt.Sprint(nLeg)
+		// some legacy sources are vesting accounts at genesis: idx:kind(d=delayed,c=continuous):end(sec after genesis):locked FX
+		var vest []string
+		for i := 1; i < nLeg; i++ {
+			if rng.IntN(3) == 0 {
+				end := []int{60, 400, 3000, 100_000, 5_000_000}[rng.IntN(5)]
+				vest = append(vest, fmt.Sprintf("%d:%s:%d:%d", i, []string{"d", "c"}[rng.IntN(2)], end, []int{1, 1000, 400_000, 1_000_000}[rng.IntN(4)]))
+			}
+		}
+		k["vest"] = strings.Join(vest, ",")
 		base = map[string]int{"submit": 6, "deposit": 6, "vote": 8, "time": 10, "stake": 25, "migrate": 14, "custom": 0, "donate": 0}
 		rc.Steps = 45 + rng.IntN(45)
 	}
@@ -184,9 +195,34 @@ func patchGovGenesis(w *World, gen []byte, rc RunConfig) ([]byte, error) {
 		}
 		return cs
 	}
+	vest := map[int][]string{}
+	for _, v := range strings.Split(rc.Knob("vest"), ",") {
+		if f := strings.Split(v, ":"); len(f) == 4 {
+			var i int
+			fmt.Sscan(f[0], &i)
+			vest[i] = f
+		}
+	}
 	for i := 0; i < rc.KnobInt("legacy", 0); i++ {
 		a := gsign(w, KeyName("leg", i)).Addr
-		accs = append(accs, authtypes.NewBaseAccount(a, nil, 0, 0))
+		base := authtypes.NewBaseAccount(a, nil, 0, 0)
+		if f, ok := vest[i]; ok {
+			var end, amt int64
+			fmt.Sscan(f[2], &end)
+			fmt.Sscan(f[3], &amt)
+			locked := sdk.NewCoins(sdk.NewCoin(fxtypes.DefaultDenom, FX(amt)))
+			bva, err := vestingtypes.NewBaseVestingAccount(base, locked, GenesisTime.Unix()+end)
+			if err != nil {
+				return nil, err
+			}
+			if f[1] == "d" {
+				accs = append(accs, vestingtypes.NewDelayedVestingAccountRaw(bva))
+			} else {
+				accs = append(accs, vestingtypes.NewContinuousVestingAccountRaw(bva, GenesisTime.Unix()))
+			}
+		} else {
+			accs = append(accs, base)
+		}
 		bankGen.Balances = append(bankGen.Balances, banktypes.Balance{Address: a.String(), Coins: extra(i)})
 	}
 	if rc.KnobInt("legacy", 0) > 0 {
